@@ -283,16 +283,33 @@ pub fn create_debounced_file_watcher(
     watcher
         .watch(&config.project_root, RecursiveMode::Recursive)
         .expect("Failure when watching project root");
+    // Watch the directory that contains a schema file, not the file itself: a watch on the
+    // file follows the inode, so a schema that is saved atomically (a temporary file renamed
+    // over it) would be reported as removed and never be watched again. Events for other files
+    // in that directory are dropped when they are categorized.
     watcher
-        .watch(&config.schema.absolute_path, RecursiveMode::NonRecursive)
+        .watch(
+            containing_directory(&config.schema.absolute_path),
+            RecursiveMode::NonRecursive,
+        )
         .expect("Failing when watching schema");
     for extension in &config.schema_extensions {
         watcher
-            .watch(&extension.absolute_path, RecursiveMode::NonRecursive)
+            .watch(
+                containing_directory(&extension.absolute_path),
+                RecursiveMode::NonRecursive,
+            )
             .expect("Failing when watching schema extension");
     }
 
     (receiver, watcher)
+}
+
+fn containing_directory(path: &PathBuf) -> &std::path::Path {
+    match path.parent() {
+        Some(parent) if !parent.as_os_str().is_empty() => parent,
+        _ => path,
+    }
 }
 
 #[derive(Debug, Clone)]
